@@ -216,3 +216,69 @@ Theorem get_op_bits_nodup cr bits size_map is_q s out s' :
 Proof.
   intros H. apply (get_op_bits_go_nodup cr size_map is_q bits [] s out s'); [constructor | exact H].
 Qed.
+
+(* ---------- resolved operands lie inside their register ---------- *)
+Definition inside (x : string) (n : Z) (b : bitref) : Prop := fst b = x /\ 0 <= snd b < n.
+
+Lemma iter_validate_ok size : forall ids s r, iterM (fun i => validate_index i size) ids s = Ok r ->
+  Forall (fun i => 0 <= i < size) ids.
+Proof.
+  induction ids as [|i ids IH]; intros s r H; [constructor|]. cbn [iterM] in H.
+  apply bindM_ok in H as [u [s1 [Hv H]]]. apply validate_index_ok in Hv as [Hi _]. constructor; [exact Hi|eapply IH; eauto].
+Qed.
+
+(* an operand that names a register of the size map directly (not through an alias) resolves to bits of that register,
+   every one inside it: whole register, single index, index set, slice with any step *)
+Theorem resolve_one_inside cr q size_map is_q s bits s' n :
+  sget (qarg_name q) size_map = Some n ->
+  resolve_one cr q size_map is_q s = Ok (bits, s') ->
+  Forall (inside (qarg_name q) n) bits.
+Proof.
+  intros Hn H. unfold resolve_one in H.
+  apply bindM_ok in H as [s0 [s1 [_ H]]]. rewrite Hn in H.
+  apply bindM_ok in H as [[al sm] [s2 [E H]]]. apply ret_ok in E. inversion E; subst al sm s2; clear E.
+  apply bindM_ok in H as [u [s3 [_ H]]]. rewrite Hn in H.
+  apply bindM_ok in H as [ids [s4 [Hids H]]]. apply ret_ok in H. inversion H; subst bits s'; clear H.
+  assert (Hr : Forall (fun i => 0 <= i < n) ids).
+  { destruct q as [x|x idx]; cbn [qarg_name] in *.
+    - apply lift_ok in Hids as [l [Hl E]]. inversion E; subst. apply py_range_whole in Hl. subst l.
+      apply Forall_forall. intros i Hi. apply in_map_iff in Hi as (k & <- & Hk). apply in_seq in Hk. lia.
+    - destruct idx as [|[vals|items] rest]; [discriminate| |].
+      + apply bindM_ok in Hids as [ids' [s5 [_ Hids]]]. apply bindM_ok in Hids as [u' [s6 [Hv Hids]]].
+        apply ret_ok in Hids. inversion Hids; subst. eapply iter_validate_ok; eauto.
+      + destruct items as [|[e|a b c] items']; [discriminate| |].
+        * apply bindM_ok in Hids as [v [s5 [_ Hids]]]. apply bindM_ok in Hids as [i [s6 [_ Hids]]].
+          apply bindM_ok in Hids as [u' [s7 [Hv Hids]]]. apply validate_index_ok in Hv as [Hi _].
+          apply ret_ok in Hids. inversion Hids; subst. constructor; [exact Hi|constructor].
+        * unfold range_ids in Hids.
+          apply bindM_ok in Hids as [a0 [s5 [_ Hids]]]. apply bindM_ok in Hids as [b0 [s6 [_ Hids]]].
+          apply bindM_ok in Hids as [st [s7 [_ Hids]]]. apply bindM_ok in Hids as [u1 [s8 [Hva Hids]]].
+          apply bindM_ok in Hids as [u2 [s9 [Hvb Hids]]]. apply validate_index_ok in Hva as [Ha _]. apply validate_index_ok in Hvb as [Hb _].
+          apply lift_ok in Hids as [l [Hl E]]. inversion E; subst. eapply py_range_in_register; eauto. }
+  apply Forall_forall. intros b Hb. apply in_map_iff in Hb as (i & <- & Hi). split; [reflexivity|].
+  eapply Forall_forall in Hr; eauto.
+Qed.
+
+Lemma get_op_bits_go_inside cr size_map is_q (P : bitref -> Prop) : forall bits acc s out s',
+  (forall q, In q bits -> exists n, sget (qarg_name q) size_map = Some n /\ forall b, inside (qarg_name q) n b -> P b) ->
+  Forall P acc -> get_op_bits_go cr size_map is_q bits acc s = Ok (out, s') -> Forall P out.
+Proof.
+  induction bits as [|q bits IH]; intros acc s out s' Hq Hacc Hgo; cbn [get_op_bits_go] in Hgo.
+  - apply ret_ok in Hgo. congruence.
+  - apply bindM_ok in Hgo as [new [s1 [Hr Hgo]]]. apply bindM_ok in Hgo as [u [s2 [_ Hgo]]].
+    destruct (Hq q (or_introl eq_refl)) as (n & Hn & HP).
+    pose proof (resolve_one_inside cr q size_map is_q s new s1 n Hn Hr) as Hin.
+    apply (IH (acc ++ new) s2 out s'); [intros q' Hq'; apply Hq; now right| |exact Hgo].
+    apply Forall_app. split; [exact Hacc|]. eapply Forall_impl; [|exact Hin]. exact HP.
+Qed.
+
+(* every bit an operation resolves to lies inside the register its operand names (operands naming registers directly) *)
+Theorem get_op_bits_inside cr bits size_map is_q s out s' :
+  (forall q, In q bits -> sget (qarg_name q) size_map <> None) ->
+  get_op_bits cr bits size_map is_q s = Ok (out, s') ->
+  Forall (fun b => exists n, sget (fst b) size_map = Some n /\ 0 <= snd b < n) out.
+Proof.
+  intros Hq H. apply (get_op_bits_go_inside cr size_map is_q _ bits [] s out s'); [|constructor|exact H].
+  intros q Hin. destruct (sget (qarg_name q) size_map) as [n|] eqn:E; [|now apply Hq in Hin].
+  exists n. split; [reflexivity|]. intros b [Hf Hr]. exists n. rewrite Hf. split; [exact E|exact Hr].
+Qed.
